@@ -1,8 +1,156 @@
 import MetadorModel.Py.DrvLib
-/-! Driver stub (to be filled in). -/
-open MetadorModel
+import MetadorModel.Model.Partial
+/-! Driver for the partial-merge model (C14).
 
-def step (s : Unit) : List String → Unit × String
+Values in prefix notation: `I <int>` | `B T|F` | `S <hex>` | `L <n> v*` | `E <n> atom*` |
+`O <cls.chain> <n> (<keyhex> v)*` (keys sorted).
+`set a|b|c <value>` stores an operand; `m <expr> T|F` evaluates one of
+`ab bc ab_c a_bc ea ae` with `allow_overwrite` T/F; `req <cls.chain> <fieldhex>*` declares
+required fields; `rt <value>` is `from_partial(to_partial(v))`. -/
+open MetadorModel MetadorModel.Partial MetadorModel.Drv
+
+def parseInt (s : String) : Option Int :=
+  if s.startsWith "-" then (s.drop 1).toNat?.map (fun n => -(n : Int)) else s.toNat?.map (fun n => (n : Int))
+
+def parseCls (s : String) : Cls := if s == "-" then [] else s.splitOn "."
+
+partial def parseVal : List String → Option (PVal × List String)
+  | "I" :: i :: rest => (parseInt i).map (fun i => (.atom (.int i), rest))
+  | "B" :: "T" :: rest => some (.atom (.bool true), rest)
+  | "B" :: "F" :: rest => some (.atom (.bool false), rest)
+  | "S" :: h :: rest => (unhexStr h).map (fun s => (.atom (.str s), rest))
+  | "L" :: n :: rest =>
+    match n.toNat? with
+    | none => none
+    | some n =>
+      let rec goL (n : Nat) (acc : List PVal) (toks : List String) : Option (PVal × List String) :=
+        match n with
+        | 0 => some (.list acc.reverse, toks)
+        | n + 1 =>
+          match parseVal toks with
+          | some (v, rest') => goL n (v :: acc) rest'
+          | none => none
+      goL n [] rest
+  | "E" :: n :: rest =>
+    match n.toNat? with
+    | none => none
+    | some n =>
+      let rec goE (n : Nat) (acc : List Atom) (toks : List String) : Option (PVal × List String) :=
+        match n with
+        | 0 => some (.set acc.reverse, toks)
+        | n + 1 =>
+          match parseVal toks with
+          | some (.atom a, rest') => goE n (a :: acc) rest'
+          | _ => none
+      goE n [] rest
+  | "O" :: c :: n :: rest =>
+    match n.toNat? with
+    | none => none
+    | some n =>
+      let rec goO (n : Nat) (acc : Fields) (toks : List String) : Option (PVal × List String) :=
+        match n with
+        | 0 => some (.obj (parseCls c) acc.reverse, toks)
+        | n + 1 =>
+          match toks with
+          | kh :: rest1 =>
+            match unhexStr kh, parseVal rest1 with
+            | some k, some (v, rest') => goO n ((k, v) :: acc) rest'
+            | _, _ => none
+          | [] => none
+      goO n [] rest
+  | _ => none
+
+def showAtom : Atom → String
+  | .int i => s!"I {i}"
+  | .bool b => if b then "B T" else "B F"
+  | .str s => "S " ++ hexStr s
+
+def insStr (x : String) : List String → List String
+  | [] => [x]
+  | y :: r => if x < y then x :: y :: r else y :: insStr x r
+
+def sortStr (l : List String) : List String := l.foldl (fun acc x => insStr x acc) []
+
+partial def showVal : PVal → String
+  | .atom a => showAtom a
+  | .list xs => " ".intercalate (s!"L {xs.length}" :: xs.map showVal)
+  | .set xs => " ".intercalate (s!"E {xs.length}" :: sortStr (xs.map showAtom))
+  | .obj c fs =>
+    " ".intercalate (s!"O {if c.isEmpty then "-" else ".".intercalate c} {fs.length}" ::
+      fs.map fun (k, v) => hexStr k ++ " " ++ showVal v)
+
+def showErr : Err → String
+  | .conflict => "conflict"
+  | .shape => "type"
+  | .invalid => "validation"
+
+def showRes (tag : String) : Except Err PVal → String
+  | .ok v => s!"{tag} ok {showVal v}"
+  | .error e => s!"{tag} err {showErr e}"
+
+structure St where
+  a : Option PVal := none
+  b : Option PVal := none
+  c : Option PVal := none
+  req : List (Cls × List String) := []
+
+def St.reqF (s : St) (c : Cls) : List String :=
+  match s.req.find? (fun p => p.1 == c) with
+  | some p => p.2
+  | none => []
+
+def cls? : PVal → Option Cls
+  | .obj c _ => some c
+  | _ => none
+
+def bindE (x : Except Err PVal) (f : PVal → Except Err PVal) : Except Err PVal :=
+  match x with
+  | .ok v => f v
+  | .error e => .error e
+
+def step (s : St) : List String → St × String
+  | "set" :: nm :: rest =>
+    match parseVal rest with
+    | some (v, []) =>
+      if !v.wf then (s, "bad-op")
+      else if nm == "a" then ({ s with a := some v }, "ok")
+      else if nm == "b" then ({ s with b := some v }, "ok")
+      else if nm == "c" then ({ s with c := some v }, "ok")
+      else (s, "bad-op")
+    | _ => (s, "bad-op")
+  | ["m", e, o] =>
+    match s.a, s.b, s.c, (if o == "T" then some true else if o == "F" then some false else none) with
+    | some a, some b, some c, some ow =>
+      let tag := e ++ o
+      if e == "ab" then (s, showRes tag (mergeWith ow a b))
+      else if e == "bc" then (s, showRes tag (mergeWith ow b c))
+      else if e == "ab_c" then (s, showRes tag (bindE (mergeWith ow a b) (fun x => mergeWith ow x c)))
+      else if e == "a_bc" then (s, showRes tag (bindE (mergeWith ow b c) (fun x => mergeWith ow a x)))
+      else if e == "ea" then
+        match cls? a with
+        | some ca => (s, showRes tag (mergeWith ow (empty ca) a))
+        | none => (s, "bad-op")
+      else if e == "ae" then
+        match cls? a with
+        | some ca => (s, showRes tag (mergeWith ow a (empty ca)))
+        | none => (s, "bad-op")
+      else if e == "fold" then (s, showRes tag (mergeAll ow [] [a, b, c]))
+      else (s, "bad-op")
+    | _, _, _, _ => (s, "bad-op")
+  | "req" :: c :: fields =>
+    match fields.mapM unhexStr with
+    | some fl => ({ s with req := (parseCls c, fl) :: s.req }, "ok")
+    | none => (s, "bad-op")
+  | "rt" :: rest =>
+    match parseVal rest with
+    | some (v, []) =>
+      if !v.wf then (s, "bad-op")
+      else (s, showRes "rt" (fromPartial s.reqF (toPartial v)))
+    | _ => (s, "bad-op")
+  | "legacy" :: o :: _ =>
+    match s.a, s.b with
+    | some a, some b => (s, showRes "legacy" (Legacy.mergeWith (o == "T") a b))
+    | _, _ => (s, "bad-op")
   | _ => (s, "bad-op")
 
-def main : IO Unit := Drv.run () step
+def main : IO Unit := Drv.run ({} : St) step
